@@ -202,6 +202,8 @@ def _flat(tag: str, items: list[S]) -> list[S]:
 
 def mk_and(items: list[S]) -> S:
     xs = _flat("and", items)
+    if any(x == K_FALSE for x in xs):
+        return K_FALSE
     xs = [x for x in xs if x != K_TRUE]
     uniq = sorted({skey(x): x for x in xs}.values(), key=skey)
     if not uniq:
@@ -213,6 +215,8 @@ def mk_and(items: list[S]) -> S:
 
 def mk_or(items: list[S]) -> S:
     xs = _flat("or", items)
+    if any(x == K_TRUE for x in xs):
+        return K_TRUE
     xs = [x for x in xs if x != K_FALSE]
     uniq = sorted({skey(x): x for x in xs}.values(), key=skey)
     if not uniq:
